@@ -66,6 +66,13 @@ def stepU (op : String) (args : List String) : String :=
        let s := bytesToChars bs
        (match U128.fromString s with | some v => "ok " ++ uStr v | none => "err") ++ " " ++ uStr (U128.fromStringNoCheck s)
      | none => "bad-op")
+  | "scan", [vb, t] =>
+    (match hexBytes? t, vb.toList with
+     | some bs, [verb] =>
+       (match U128.scan (bytesToChars bs) verb with
+        | some v => "ok " ++ uStr v ++ " " ++ uStr v
+        | none => "err " ++ uStr U128.zero)
+     | _, _ => "bad-op")
   | "unmarshal", [t] =>
     (match hexBytes? t with
      | some bs =>
@@ -95,6 +102,13 @@ def stepI (op : String) (args : List String) : String :=
        let s := bytesToChars bs
        (match I128.fromString s with | some v => "ok " ++ iStr v | none => "err") ++ " " ++ iStr (I128.fromStringNoCheck s)
      | none => "bad-op")
+  | "scan", [vb, t] =>
+    (match hexBytes? t, vb.toList with
+     | some bs, [verb] =>
+       (match I128.scan (bytesToChars bs) verb with
+        | some v => "ok " ++ iStr v ++ " " ++ iStr v
+        | none => "err " ++ iStr I128.zero)
+     | _, _ => "bad-op")
   | "unmarshal", [t] =>
     (match hexBytes? t with
      | some bs =>
